@@ -42,15 +42,64 @@ example : ∃ r ∈ rules, r.1 = "E" ∧ (r.2.filter (· == "n")).length = 4 := 
     machine of Props/C16Sym.lean assumes (`use_ignores_context`) -/
 theorem contexts_share_symbols : contextsShareSymbols = true := by decide
 
+/-- a key that occurs in a table is found by `lookup` -/
+theorem lookup_isSome_of_mem_keys {α : Type} (l : List (String × α)) (k : String) (h : k ∈ l.map (·.1)) :
+    (l.lookup k).isSome = true := by
+  induction l with
+  | nil => simp at h
+  | cons x xs ih =>
+    obtain ⟨a, b⟩ := x
+    by_cases hk : k = a
+    · subst hk; simp [List.lookup]
+    · have : (k == a) = false := by simpa using hk
+      simp only [List.map_cons, List.mem_cons] at h
+      rcases h with h | h
+      · exact absurd h hk
+      · simp [List.lookup, this, ih h]
+
+/-- the generated sub-tables are aligned with the lists of names they are made for (row k belongs to name k) -/
+theorem public_rows_aligned : publicReads.map (·.1) = publicMembers ∧ memberWrites.map (·.1) = publicMembers := by
+  decide +kernel
+
+theorem harness_rows_aligned : harnessReads.map (·.1) = harnessQueries := by decide +kernel
+
+/-- EVERY public member of the netlist classes has a row in the generated tables: its memo closure (`reads`) and the
+    non-memo instance state it writes (`memberWrites`).  A member without a row would be treated as reading and writing
+    nothing; with this theorem a missing row is a broken obligation. -/
+theorem every_public_member_has_rows :
+    ∀ m ∈ publicMembers, (config.reads.lookup m).isSome = true ∧ (memberWrites.lookup m).isSome = true := by
+  intro m hm
+  refine ⟨?_, ?_⟩
+  · apply lookup_isSome_of_mem_keys
+    show m ∈ (harnessReads ++ queryReads ++ publicReads).map (·.1)
+    simp only [List.map_append, List.mem_append]
+    exact Or.inr (public_rows_aligned.1 ▸ hm)
+  · exact lookup_isSome_of_mem_keys _ _ (public_rows_aligned.2 ▸ hm)
+
+/-- ... and every query the harness asks has a row: it is never silently treated as reading nothing -/
+theorem harness_queries_have_rows : ∀ q ∈ harnessQueries, (config.reads.lookup q).isSome = true := by
+  intro q hq
+  apply lookup_isSome_of_mem_keys
+  show q ∈ (harnessReads ++ queryReads ++ publicReads).map (·.1)
+  simp only [List.map_append, List.mem_append]
+  exact Or.inl (Or.inl (harness_rows_aligned ▸ hq))
+
 /-- the modules of the netlist / memo layer: what computes and stores the memoised analyses -/
 def netlistLayer : List String := ["netlist.py", "netlistmixin.py", "netlistopsmixin.py", "netlistsimplifymixin.py", "netfile.py",
   "mna.py", "subnetlist.py", "circuitgraph.py", "analysis.py", "components.py", "nodalanalysis.py", "loopanalysis.py",
   "statespacemaker.py", "laddernetworkmaker.py", "simulator.py", "nodes.py", "node.py", "mnacpts.py"]
 
-/-- no module of the netlist / memo layer reads a `state.<setting>`: the settings are consulted by the expression
-    layer only (expr.py, texpr.py, sexpr.py, current.py, ...), i.e. at the time an expression is built, transformed or
-    printed -- this is the `f elts env` of Props/C16Env.lean; whether a memoised analysis is sensitive to a setting is
-    then decided on the real code by the toggle oracle -/
+/-- Over the WHOLE generated settings table: the only process-wide setting that a module of the netlist / memo layer
+    reads is `config.solver_method` (netlist.py copies it into every instance at construction, `matrix.py` uses it as the
+    default method).  The solver method cannot change the value of a result (C01 `solver_independent`), only the form of
+    an expression; it is toggled in the oracle together with the `state.*` flags, where results are compared by value.
+    Every `state.<setting>` is consulted by the expression layer only (expr.py, texpr.py, sexpr.py, current.py, ...), i.e.
+    at the time an expression is built, transformed or printed.  Whether a memoised analysis is sensitive to a setting
+    is decided on the real code by the toggle oracle (Props/C16Env.lean only describes the mechanism). -/
+theorem netlist_layer_reads_only_solver_method :
+    ∀ s ∈ settings, ∀ m ∈ s.2.2, m ∈ netlistLayer → s.1 = "config.solver_method" := by decide
+
+/-- the `state.*` part of it, as a list of reader modules -/
 theorem netlist_layer_reads_no_state_setting : ∀ m ∈ stateSettingReaders, m ∉ netlistLayer := by decide
 
 /-- the table is not empty: the settings ARE read somewhere -/
@@ -67,10 +116,10 @@ theorem arguments_not_mutated_through_alias : argAliasMutations = [] := by decid
 /-- `_invalidate` only names members that are memoised (anything else would raise) -/
 theorem cleared_are_memoised : ∀ s ∈ config.cleared, (config.kindOf s).isSome = true := by decide
 
-/-- every memo dependency and every slot a query reads is a memoised member -/
+/-- every memo dependency and every slot a query of the harness reads is a memoised member -/
 theorem reads_are_memoised :
     (∀ p ∈ config.deps, ∀ d ∈ p.2, (config.kindOf d).isSome = true) ∧
-    (∀ p ∈ config.reads, ∀ d ∈ p.2, (config.kindOf d).isSome = true) := by decide
+    (∀ p ∈ harnessReads, ∀ d ∈ p.2, (config.kindOf d).isSome = true) := by decide +kernel
 
 /-- every keyword argument a transformer class looks at also enters its cache key, with a default
     of the same truth value (otherwise a call that omits the argument and a call that passes the
